@@ -186,14 +186,25 @@ def run_case(ctx, impl, ops, raise_types, point, streams=None):
         handed.setdefault(key, []).extend(msgs)
         lines.append(impl.line(f))
         got.append(f"{flag} {','.join(m.hex() for m in msgs) or '-'} {impl.state()}")
-    replies = ctx.driver("cryptostream", lines)
-    p = ctx.point(point)
-    p["cases"] += 1
-    for i, (a, b) in enumerate(zip(got, replies)):
-        if a != b:
-            ctx.disagree(point, {"ops": lines[:i + 1], "at": i}, a, b)
-            break
+    ctx.point(point)["cases"] += 1
+    PENDING.append((point, lines, got))
     return handed
+
+
+PENDING = []
+
+
+def flush(ctx):
+    """one driver process for all pending cases (each starts with its own `reset`)"""
+    replies = ctx.driver("cryptostream", [l for _, lines, _ in PENDING for l in lines])
+    at = 0
+    for point, lines, got in PENDING:
+        for i, (a, b) in enumerate(zip(got, replies[at:at + len(lines)])):
+            if a != b:
+                ctx.disagree(point, {"ops": lines[:i + 1], "at": i}, a, b)
+                break
+        at += len(lines)
+    PENDING.clear()
 
 
 def correspond(ctx):
@@ -235,5 +246,6 @@ def correspond(ctx):
         raise_types = set(rng.sample([0, 1, 2, 3, 8], rng.choice([0, 0, 1, 2])))
         run_case(ctx, impl, ops, raise_types, "cryptostream.malformed")
         ctx.count(("crypto-mal", i), nontrivial=False)
+    flush(ctx)
     ctx.sample({"cryptostream": "valid streams cut/permuted/duplicated over 1-4 interleaved spaces; compared after "
                                 "every update_session (messages, exception flag, 8 x offset/buffer/frame ids)"})
